@@ -8,21 +8,45 @@ use std::collections::BTreeMap;
 use std::panic::{self, AssertUnwindSafe};
 use twofloat::TwoFloat;
 
-/// Build a `TwoFloat` with exactly these words without going through any
-/// code under test. `TwoFloat` is `#[repr(C)] { hi: f64, lo: f64 }`
-/// (src/lib.rs); the transmute is size-checked at compile time and the
-/// accessors are checked at start-up (`construct_selfcheck`).
+/// Build a `TwoFloat` with exactly these words, if possible without going
+/// through any code under test: `TwoFloat` is `#[repr(C)] { hi: f64, lo: f64 }`
+/// (src/lib.rs), so a bit copy from `[f64; 2]` is used when size, alignment and
+/// a probe through the accessors confirm that layout at start-up. If a
+/// refactoring changed the layout, construction falls back to the crate's own
+/// checked constructor (the Ser leg separately checks that `TryFrom` accepts
+/// every reference-valid pair unchanged).
 pub fn raw_twofloat(hi: u64, lo: u64) -> TwoFloat {
+    use std::convert::TryFrom;
     let words: [f64; 2] = [f64::from_bits(hi), f64::from_bits(lo)];
-    // SAFETY: repr(C) struct of two f64 has the layout of [f64; 2]; every bit
-    // pattern is a valid f64.
-    unsafe { std::mem::transmute::<[f64; 2], TwoFloat>(words) }
+    if layout_is_hi_lo() {
+        // SAFETY: size and alignment were checked to equal those of [f64; 2]; every bit
+        // pattern is a valid f64; the struct has no other fields (size 16).
+        return unsafe { std::mem::transmute_copy::<[f64; 2], TwoFloat>(&words) };
+    }
+    match TwoFloat::try_from((words[0], words[1])) {
+        Ok(t) => t,
+        Err(_) => TwoFloat::new_add(words[0], words[1]),
+    }
+}
+
+pub fn layout_is_hi_lo() -> bool {
+    static OK: std::sync::OnceLock<bool> = std::sync::OnceLock::new();
+    *OK.get_or_init(|| {
+        if std::mem::size_of::<TwoFloat>() != 16 || std::mem::align_of::<TwoFloat>() != std::mem::align_of::<[f64; 2]>() {
+            return false;
+        }
+        let (a, b) = (0x3ff0_0000_0000_0000u64, 0xbc90_0000_0000_0000u64);
+        let words: [f64; 2] = [f64::from_bits(a), f64::from_bits(b)];
+        // SAFETY: as above
+        let t = unsafe { std::mem::transmute_copy::<[f64; 2], TwoFloat>(&words) };
+        t.hi().to_bits() == a && t.lo().to_bits() == b
+    })
 }
 
 pub fn construct_selfcheck() -> Result<(), String> {
     let t = raw_twofloat(0x3ff0_0000_0000_0000, 0xbc90_0000_0000_0000);
     if t.hi().to_bits() != 0x3ff0_0000_0000_0000 || t.lo().to_bits() != 0xbc90_0000_0000_0000 {
-        return Err("raw_twofloat: TwoFloat layout is not {hi, lo}".into());
+        return Err("cannot construct a TwoFloat with given words, neither by layout nor through TryFrom".into());
     }
     Ok(())
 }
